@@ -627,6 +627,8 @@ class FakeS3:
         rec['attempts'] += 1
         self.log.add('s3.begin', op=op, label=rec['label'], disc=rec['disc'], call_id=rec['call_id'], key=rec['key'], attempt=1,
                      upload_id=p.get('UploadId'))
+        if op in getattr(self, 'api_fail_ops', ()):
+            raise RuntimeError('vf-forced-failure-' + op)
         parsed = {'ResponseMetadata': {'HTTPStatusCode': 200}}
         size = self.api_sizes.get((p.get('Bucket'), p.get('Key')), 0) if hasattr(self, 'api_sizes') else 0
         if op in ('PutObject', 'UploadPart'):
